@@ -30,15 +30,15 @@ func acctKey(addrHex string) string {
 
 // txCtx carries everything the per-tx oracles look at.
 type txCtx struct {
-	h       int64
-	rec     *TxRecord
-	res     abci.ResponseDeliverTx
-	before  *Dump
-	after   *Dump
-	vb, va  *View
-	diff    []Change
-	resub   bool
-	enc     string
+	h         int64
+	rec       *TxRecord
+	res       abci.ResponseDeliverTx
+	before    *Dump
+	after     *Dump
+	vb, va    *View
+	diff      []Change
+	resub     bool
+	enc       string
 	blockTime time.Time
 }
 
@@ -115,6 +115,9 @@ func (s *Sim) requiredFee(v *View, rec *TxRecord) int64 {
 func (s *Sim) checkTx(b *blockObs, i int, tx []byte, r abci.ResponseDeliverTx, before, after *Dump) {
 	p := b.pend[i]
 	diff := Diff(before, after)
+	if len(diff) > 0 {
+		s.effective[fmt.Sprintf("%d/%d", b.spec.Height, i)] = true
+	}
 	var rec *TxRecord
 	enc := "original"
 	if p.id > 0 {
@@ -153,6 +156,10 @@ func (s *Sim) checkTx(b *blockObs, i int, tx []byte, r abci.ResponseDeliverTx, b
 		s.checkStatusMoves(t)
 	}
 	if t.resub {
+		// a resubmitted copy that took effect (the recorded C16 finding) still moves the model
+		if changed && rec.Step.Kind == "gov_upgrade" && r.Code == 0 && s.allowedSigner(t) && s.aclOwner(t.vb, "gov/upgrade") == rec.SignAddr {
+			s.checkUpgradeTx(t)
+		}
 		s.res.Probe("resubmission_delivered_" + enc)
 		return // the remaining oracles judge first deliveries
 	}
@@ -388,6 +395,9 @@ func (s *Sim) checkGov(t *txCtx, changed bool) {
 			}
 		}
 		s.res.Probe("gov_by_owner")
+		if rec.Step.Kind == "gov_upgrade" {
+			s.checkUpgradeTx(t)
+		}
 	case "gov_dao":
 		owner := s.daoOwner(t.vb)
 		isOwner := owner != "" && owner == signer && s.key(rec.Step.From).String() == signer
